@@ -147,6 +147,7 @@ type Step struct {
 	IRem   string
 	IsGen  bool
 	IsStep bool
+	Dedup  bool // executed with a de-duplicating remote: RD instead of RS
 }
 
 func (n *Names) CoqStep(s Step) string {
@@ -158,6 +159,13 @@ func (n *Names) CoqStep(s Step) string {
 	case s.IKind == "write":
 		r := map[string]string{"ok": "RemOk", "fail": "RemFail", "size": "RemSize"}[s.IRem]
 		return fmt.Sprintf("RI (IWrite %d%%N %d%%N %s)", s.ISess, s.ILit, r)
+	}
+	if s.Dedup {
+		ob := s.Obs
+		if (s.Op.Kind == "copy" || s.Op.Kind == "move") && strings.EqualFold(s.Op.Name, RecoveryName) {
+			ob.Pairs = nil // COPYUID under de-duplication is not modelled
+		}
+		return fmt.Sprintf("RD (%s) (%s)", n.CoqOp(*s.Op), CoqObs(ob))
 	}
 	return fmt.Sprintf("RS (%s) (%s)", n.CoqOp(*s.Op), CoqObs(s.Obs))
 }
